@@ -477,3 +477,5 @@ def run(F, rep, tier):
                     rep.ok("C03-R5", key, sample={"fn": it["name"], "pattern": render_pat(p)[:120], "alloc": "%s(%s)" % (kind, ",".join(args))})
     rep.floor("C03-R5", "access dispatch arms with an allocated output", n_arms, 300)
     rep.analysed = {"routing_arms": len(rt), "native_compilers": sorted(nfc_forms), "kernels": n_k, "dispatch_arms_with_output": n_arms}
+    from rules.k2_targets import run_k2
+    run_k2(F, rep, "C03", "C03-R6")
